@@ -146,10 +146,61 @@ def _genuine(rule, path="rule"):
     return f"{path}: unknown rule form {type(rule).__name__}"
 
 
+def _min_size(c):
+    """Smallest size with an object, from the brute-force oracle (word classes)."""
+    from vref import words as rw
+
+    d = rw.desc_of(c)
+    for n in range(0, 12):
+        if rw.objects(d, n):
+            return n
+    return None
+
+
+def independent_shifts(rule):
+    """Shifts of a rule derived *without* asking the library: products of word classes from
+    the true minimum sizes of the factors, unions 0, table strategies from their table row;
+    reverse / equivalence forms by the documented arithmetic on the original's shifts.
+    Returns None when no independent derivation is available (then the declared shifts are
+    used and the case is counted)."""
+    from comb_spec_searcher.strategies.constructor import CartesianProduct, DisjointUnion
+    from comb_spec_searcher.strategies.rule import EquivalenceRule, ReverseRule, VerificationRule
+    from vuniv import table as vtable
+    from vuniv import words as vwords
+
+    if isinstance(rule, VerificationRule):
+        return ()
+    if isinstance(rule, EquivalenceRule):
+        orig = independent_shifts(rule.original_rule)
+        return None if orig is None else (orig[rule.child_idx],)
+    if isinstance(rule, ReverseRule):
+        orig = independent_shifts(rule.original_rule)
+        if orig is None:
+            return None
+        p = -orig[rule.idx]
+        return (p,) + tuple(s + p for j, s in enumerate(orig) if j != rule.idx)
+    if isinstance(rule.strategy, vtable.TableStrategy):
+        return tuple(rule.strategy._row()[2])
+    if isinstance(rule.comb_class, vwords.WC):
+        cons = rule.constructor
+        if isinstance(cons, DisjointUnion):
+            return tuple(0 for _ in rule.children)
+        if isinstance(cons, CartesianProduct):
+            mins = [_min_size(c) for c in rule.children]
+            if any(m is None for m in mins):
+                return None
+            return tuple(sum(mins) - m for m in mins)
+    return None
+
+
 def triples_of(rule):
-    """(parent, children, shifts) triples contributed by a rule, read per rule form."""
+    """(parent, children, shifts) triples contributed by a rule, read per rule form.  The
+    shifts are derived independently of the library where possible (independent_shifts) and
+    compared with what the rule declares; a declared shift that promises *more* than the
+    independent one is reported by C10, here the independent value decides productivity."""
     from comb_spec_searcher.strategies.rule import EquivalencePathRule, EquivalenceRule
 
+    cx = base.ctx()
     if isinstance(rule, EquivalencePathRule):
         out = []
         for link in rule.rules:
@@ -158,12 +209,22 @@ def triples_of(rule):
     if isinstance(rule, EquivalenceRule):
         # EquivalenceRule.shifts() returns the original rule's full tuple: read at child_idx
         full = tuple(rule.original_rule.shifts())
-        return [(rule.comb_class, (rule.children[0],), (full[rule.child_idx],))]
-    sh = tuple(rule.shifts())
-    kids = tuple(rule.children)
-    if len(sh) != len(kids):
-        raise base.Violation("C02:shift-arity", f"{type(rule).__name__}: {len(sh)} shifts for {len(kids)} children")
-    return [(rule.comb_class, kids, sh)]
+        declared = (full[rule.child_idx],)
+        kids = (rule.children[0],)
+    else:
+        declared = tuple(rule.shifts())
+        kids = tuple(rule.children)
+    if len(declared) != len(kids):
+        raise base.Violation("C02:shift-arity", f"{type(rule).__name__}: {len(declared)} shifts for {len(kids)} children")
+    ind = independent_shifts(rule)
+    if ind is None or len(ind) != len(kids):
+        cx.count("spec.shifts_declared_only")
+        ind = declared
+    else:
+        cx.count("spec.shifts_derived_independently")
+        if tuple(ind) != tuple(declared):
+            cx.count("spec.declared_shifts_differ_from_independent")
+    return [(rule.comb_class, kids, tuple(ind))]
 
 
 def spec_wellformed(spec, stream=None):
